@@ -44,21 +44,21 @@ META = dict(
           "independent solve, or distinct history with at least one update "
           "that changes the impedances after a query had been answered."),
     floors={"quick": {"er_pairs_compared": 15000, "foster_checked": 250,
-                      "scaling_checked": 250, "closed_form_checked": 80,
-                      "cfb_compared": 150, "cfb_tight": 40,
-                      "clustering_compared": 250, "complex_networks": 40,
-                      "large_networks": 10,
-                      "history_updates_compared": 150,
-                      "diameter_after_update_with_prior_store": 25,
-                      "history_dtype_switch": 5},
-            "thorough": {"er_pairs_compared": 300000, "foster_checked": 2500,
-                         "scaling_checked": 2500, "closed_form_checked": 150,
-                         "cfb_compared": 1500, "cfb_tight": 400,
-                         "clustering_compared": 2500,
-                         "complex_networks": 400, "large_networks": 150,
-                         "history_updates_compared": 1500,
-                         "diameter_after_update_with_prior_store": 250,
-                         "history_dtype_switch": 50}},
+                      "scaling_checked": 250, "closed_form_checked": 50,
+                      "cfb_compared": 150, "cfb_tight": 120,
+                      "clustering_compared": 800, "complex_networks": 40,
+                      "large_networks": 20,
+                      "history_updates_compared": 250,
+                      "diameter_after_update_with_prior_store": 80,
+                      "history_dtype_switch": 30},
+            "thorough": {"er_pairs_compared": 400000, "foster_checked": 2000,
+                         "scaling_checked": 2000, "closed_form_checked": 250,
+                         "cfb_compared": 1000, "cfb_tight": 800,
+                         "clustering_compared": 8000,
+                         "complex_networks": 400, "large_networks": 300,
+                         "history_updates_compared": 2500,
+                         "diameter_after_update_with_prior_store": 1000,
+                         "history_dtype_switch": 300}},
     exhaustive_subspaces={"quick": [], "thorough": []},
     assumptions=[
         "numpy.linalg.solve on the grounded Laplacian (float64/complex128) is "
@@ -539,6 +539,12 @@ def structured(ctx, kinds):
                        weight_topology(g, A, kind), None, None)
     t = np.array([[0, 2, 0, 0, 0], [2, 0, 8, 2, 0], [0, 8, 0, 8, 0],
                   [0, 2, 8, 0, 10], [0, 0, 0, 10, 0]])
+    # 26-node series chain: smallest chain on which LAPACK's divide-and-
+    # conquer SVD (n > 25) is used by numpy.linalg.pinv
+    rs = [1.0 + 0.37 * k for k in range(25)]
+    r, ER = ref.series_chain(rs)
+    yield ("chain26:fixed", r, {(a, b): ER[a, b] for a in range(26)
+                                for b in range(26) if a != b}, "series")
     yield "doc5:int", t, None, None
     yield "doc5:float", t.astype(float), None, None
     im = np.array([[0, 4, 0, 0, 0], [4, 0, 8, 2, 0], [0, 8, 0, 8, 0],
@@ -738,9 +744,9 @@ def run(ctx):
             ctx.count("structured_cases")
 
     nmax = 30 if ctx.thorough else 12
-    cap_rnd = 6000 if ctx.thorough else 480
-    cap_big = 1600 if ctx.thorough else 64
-    cap_hist = 4000 if ctx.thorough else 320
+    cap_rnd = 4800 if ctx.thorough else 480
+    cap_big = 1200 if ctx.thorough else 64
+    cap_hist = 3200 if ctx.thorough else 320
     # interleave the three random families so that a tight budget cuts all
     # of them proportionally
     k = 0
